@@ -203,8 +203,11 @@ impl TaskQueue {
             Entry::Vacant(_) => {}
             Entry::Occupied(mut e) => match e.get_mut() {
                 OneOrMoreTaskIds::One(v) => {
-                    assert_eq!(*v, task_id);
-                    e.remove();
+                    // The task does not have to be in the queue
+                    // (e.g. a retracting task that already has a new target)
+                    if *v == task_id {
+                        e.remove();
+                    }
                 }
                 OneOrMoreTaskIds::More(tasks) => {
                     tasks.remove(&task_id);
